@@ -155,7 +155,7 @@ def inline(draft, S, docs=None, budget=12, base=""):
     document URLs (no fragment) to documents.  Resolution uses
     vf/model/uri.py only."""
     idkw = IDKW[draft]
-    docs = dict(docs or {})
+    docs = {U.norm_key(k): v for k, v in (docs or {}).items()}
     root_base = base
     if isinstance(S, dict) and isinstance(S.get(idkw), str) and S[idkw] and "$ref" not in S:
         root_base = U.resolve(base, S[idkw]) if base else S[idkw]
@@ -363,7 +363,9 @@ def arrange(rng, draft, s0, mode=None):
                     doc = inner.schema
                     info["refs"] += inner.info["refs"]
                     info["inner_store_refs"] = info.get("inner_store_refs", 0) + inner.info["refs"]
-            store[url] = doc
+            # the caller may register the document under a spelling with an empty fragment
+            # (what {doc[id]: doc} gives when the id ends in '#'): the store normalises its keys
+            store[url + "#" if rng.random() < 0.3 else url] = doc
             base_for_spell = base_here
         else:
             placement = "handler"
@@ -500,7 +502,7 @@ def unfold_for(draft, S, docs, insts, base="", max_inplace=12):
     evaluated).  Terminates because every descent consumes instance depth and
     in-place hops are capped (in-place cycles are outside the property)."""
     idkw = IDKW[draft]
-    docs = dict(docs or {})
+    docs = {U.norm_key(k): v for k, v in (docs or {}).items()}
     root_base = base
     if isinstance(S, dict) and isinstance(S.get(idkw), str) and S[idkw] and "$ref" not in S:
         root_base = U.resolve(base, S[idkw]) if base else S[idkw]
